@@ -42,48 +42,36 @@ func (r CharRecipe) n() *big.Int {
 	return n(allowed, required, r.Length)
 }
 
-// n is the number of possible passwords that can be generated.
+// n is the number of possible passwords that can be generated: the strings
+// of the given length over R, the union of all sets in the password recipe,
+// that contain at least one member of every required set.
 // Unfortunately, we can't take the log until the very end, so we will
 // be dealing with some very large numbers.
 func n(allowed set.Set, required set.Set, length int) *big.Int {
-	// totalCount is the total number of permutations possible when a
-	// password of length n is generated from the set R, which is the
-	// union of all sets in the password recipe.
 	R := unionAll(allowed.Union(required))
-	totalCount := &big.Int{}
-	totalCount.Exp(toBigInt(R.Cardinality()), toBigInt(length), nil) // #nosec G105
 
-	// Each of these sets of sets represents a password recipe that we
-	// will reject and thus must subtract from our total count.
-	// We want to reject all subsets of the set of required sets except
-	// the set of required sets itself.
-	// For example, if L and D are required, rejectedSubsets
-	// will contain {L} and {D} and will not contain {L, D}.
-	// Optional sets are not part of this at all because they will
-	// simply be tacked on at the end.
-	powerSet := required.PowerSet()
-	rejectedSubsets := set.NewSet()
-	for el := range powerSet.Iter() {
-		elSet, ok := el.(set.Set)
-		if ok && !required.Equal(elSet) {
-			rejectedSubsets.Add(elSet)
+	// The required sets may overlap, so we count by inclusion-exclusion:
+	// for every subset of the set of required sets, the strings that avoid
+	// all of its members are the strings over R less the union of those members.
+	// These are added when the subset has an even number of members and
+	// subtracted when it has an odd number. (The empty subset contributes
+	// the total number of strings over R.)
+	count := &big.Int{}
+	for el := range required.PowerSet().Iter() {
+		subset, ok := el.(set.Set)
+		if !ok {
+			continue
+		}
+		avoiding := R.Difference(unionAll(subset))
+		term := &big.Int{}
+		term.Exp(toBigInt(avoiding.Cardinality()), toBigInt(length), nil) // #nosec G105
+		if subset.Cardinality()%2 == 1 {
+			count.Sub(count, term)
+		} else {
+			count.Add(count, term)
 		}
 	}
-
-	// When requiredSets is {{}} (it is a set containing only the empty set),
-	// powerSet(requiredSets) will also be {{}};
-	// thus, rejectedSubsets will be empty, the reducing
-	// function below will not run, and rejectedCount will be 0,
-	// terminating the recursion.
-
-	rejectedCount := sumAll(
-		rejectedSubsets,
-		func(subset set.Set) *big.Int {
-			return n(allowed, subset, length)
-		},
-	)
-
-	return totalCount.Sub(totalCount, rejectedCount)
+	return count
 }
 
 func toBigInt(i int) *big.Int {
